@@ -70,6 +70,53 @@ pub fn generate(rng: &mut Rng, tier: &str, shard: usize, nshards: usize, out: &m
             }
         }
     }
+    // 1b. word-level near-misses of the limb loop: for x = b*10^k (scale gap k in 1..19)
+    //     (i)  y = x +- 2^(32 j) for every word position j (one unit of carry into word j),
+    //     (ii) y = x mod 2^(32 n) with n = words(b): all low words agree and only the final carry out
+    //          of the top word tells the numbers apart; b is sized so that the bit-length prefilter
+    //          cannot (bits(y) = 32 n = bits(b) + floor(k log2 10))
+    let reps2 = if thorough { 60 } else { 8 };
+    for k in 1..20u32 {
+        let pow = BigUint::from(10u64.pow(k));
+        let kbits = ((k as f64) * 3.321928094887362).floor() as u64;
+        for nwords in 1..=5u64 {
+            for _ in 0..reps2 {
+                // (ii) truncation class
+                let want_bits = (32 * nwords).saturating_sub(kbits);
+                for bb in [want_bits, want_bits + 1] {
+                    if bb <= 32 * (nwords - 1) || bb > 32 * nwords { continue; }
+                    let mut b = BigUint::from(1u8) << (bb as usize - 1);
+                    b = &b + (BigUint::from(rng.next()) * BigUint::from(rng.next()) * BigUint::from(rng.next())) % &b;
+                    let p = &b * &pow;
+                    let modulus = BigUint::from(1u8) << (32 * nwords as usize);
+                    if p < modulus { continue; }
+                    let a = &p % &modulus;
+                    if a.bits() != 32 * nwords { continue; }
+                    let s = rng.range(-30, 30);
+                    let sign = if rng.chance(1, 2) { Sign::Plus } else { Sign::Minus };
+                    let x = dec(BigInt::from_biguint(sign, b.clone()), s);
+                    let y = dec(BigInt::from_biguint(sign, a), s + k as i64);
+                    emit(pair(&x, &y), &mut n);
+                    emit(pair(&y, &x), &mut n);
+                }
+                // (i) one unit in word j
+                let mut limbs: Vec<u32> = (0..nwords).map(|_| rng.next() as u32).collect();
+                if *limbs.last().unwrap() == 0 { *limbs.last_mut().unwrap() = 1; }
+                let b = limbs_to_uint(&limbs);
+                let p = &b * &pow;
+                let words_p = (p.bits() + 31) / 32;
+                let j = rng.below(words_p + 1) as usize;
+                let unit = BigUint::from(1u8) << (32 * j);
+                let y_mag = if rng.chance(1, 2) || p <= unit { &p + &unit } else { &p - &unit };
+                let s = rng.range(-30, 30);
+                let sign = if rng.chance(1, 2) { Sign::Plus } else { Sign::Minus };
+                let x = dec(BigInt::from_biguint(sign, b), s);
+                let y = dec(BigInt::from_biguint(sign, y_mag), s + k as i64);
+                emit(pair(&x, &y), &mut n);
+                emit(pair(&y, &x), &mut n);
+            }
+        }
+    }
     // 2. structured random pairs
     let total = if thorough { 1_500_000 } else { 100_000 };
     for _ in 0..total {
